@@ -3,13 +3,12 @@
 package main
 
 import (
-	"golang.org/x/crypto/bcrypt"
-	"crypto/tls"
-	"sync/atomic"
 	"crypto/hmac"
 	"crypto/sha256"
+	"crypto/tls"
 	"encoding/pem"
 	"fmt"
+	"golang.org/x/crypto/bcrypt"
 	"io"
 	"net/http"
 	"net/http/httptest"
@@ -19,6 +18,7 @@ import (
 	"runtime/debug"
 	"sort"
 	"strings"
+	"sync/atomic"
 	"time"
 
 	"github.com/alicebob/miniredis/v2"
@@ -91,13 +91,13 @@ type proxyCfg struct {
 	BackendLogout         bool
 	SkipClaimsFromProfile bool
 	CookieMinimal         bool
-	ExtraJwtIssuers []string // "issuerURL=audience" (suite tokens: a second fakeIDP acts as the extra issuer)
-	StaticKeys      string   // "" = OIDC discovery | "jwks" = SkipDiscovery + JwksURL | "pem" = SkipDiscovery + PublicKeyFiles
-	SkipIssuerCheck bool     // InsecureSkipIssuerVerification
-	ProviderType          string // "" = oidc; "keycloak-oidc"; "entra-id"
+	ExtraJwtIssuers       []string // "issuerURL=audience" (suite tokens: a second fakeIDP acts as the extra issuer)
+	StaticKeys            string   // "" = OIDC discovery | "jwks" = SkipDiscovery + JwksURL | "pem" = SkipDiscovery + PublicKeyFiles
+	SkipIssuerCheck       bool     // InsecureSkipIssuerVerification
+	ProviderType          string   // "" = oidc; "keycloak-oidc"; "entra-id"
 	EntraAllowedTenants   []string
-	IdPAdvertisedPKCE     []string // code_challenge_methods_supported of the discovery document (nil = S256 and plain)
-	RedisRealTime         bool     // miniredis TTLs run down in real time (they are otherwise frozen): locks and entries really expire
+	IdPAdvertisedPKCE     []string      // code_challenge_methods_supported of the discovery document (nil = S256 and plain)
+	RedisRealTime         bool          // miniredis TTLs run down in real time (they are otherwise frozen): locks and entries really expire
 	RedisReadTimeout      time.Duration // read_timeout of the Redis client (0 = the client's default of 3 s)
 	BindAddress           string        // the proxy's own HTTP listener ("" = none: the suites call the handler)
 	SecureBindAddress     string        // with ForceHTTPS: the proxy's own TLS listener (default 127.0.0.1:8443)
